@@ -5693,6 +5693,13 @@ impl BytecodeVM {
                     .ok_or_else(|| JsError::internal_error("Invalid binding name constant"))?;
                 let val = self.get_reg(value).clone();
 
+                // The scratch map is not traced: keep an exported object alive until the
+                // module namespace is built (an `export default {..}` has no binding in
+                // the module environment that would keep it reachable).
+                if let JsValue::Object(obj) = &val {
+                    interp.exports_guard.guard(obj.cheap_clone());
+                }
+
                 // Store in interpreter's exports map
                 interp.exports.insert(
                     export_name_str,
